@@ -981,8 +981,13 @@ impl<'a> ActiveFileSet<'a> {
 
     fn apply_retention(&mut self, fs: impl Filesystem, max_files: usize) {
         while self.file_set.len() >= max_files {
+            // If `max_files` is 0 then the set will empty before the condition fails
+            let Some(file_name) = self.file_set.pop() else {
+                break;
+            };
+
             let mut path = PathBuf::from(self.dir);
-            path.push(self.file_set.pop().unwrap());
+            path.push(file_name);
 
             if let Err(err) = fs.remove_file(&path) {
                 self.metrics.file_delete_failed.increment();
